@@ -43,7 +43,7 @@ if ok:
     if os.path.exists(np_):
         notes = open(np_).read()
         shutil.copy(np_, os.path.join(d, "agent_notes.md"))
-    meta = {"property": pid, "seed": f"{pid}-{store_n}", "round": 2 if store_n != n else 1, "source": "independent sub-agent given only the property text and a scratch worktree",
+    meta = {"property": pid, "seed": f"{pid}-{store_n}", "round": (int(store_n) + 1) // 2, "source": "independent sub-agent given only the property text and a scratch worktree",
             "needs_to_manifest": "see agent_notes.md (section for this mutation)", "confirmed_by": "tools/confirm_seed.py in a fresh scratch worktree of /repo HEAD",
             "ran": {"demo on clean tree (exit)": res["demo_clean_rc"], "demo with patch (exit)": res["demo_patched_rc"], "baseline_check with patch": res["baseline_out"], "diff": res.get("diff_stat")},
             "repo_head": subprocess.run(["git", "-C", "/repo", "rev-parse", "--short", "HEAD"], capture_output=True, text=True).stdout.strip()}
